@@ -265,3 +265,22 @@ func VerifC14ParseArbitrary() {
 	}
 	rt.Reach("end")
 }
+
+// ---- cut wrapper for Child (used by keystore harnesses that treat derivation as opaque) ----
+
+// VerifChildStub, when set and the cut "hdChild" is active, replaces Child.
+var VerifChildStub func(k *ExtendedKey, i uint32) (*ExtendedKey, error)
+
+func (k *ExtendedKey) Child(i uint32) (*ExtendedKey, error) {
+	if rt.CutActive("hdChild") && VerifChildStub != nil {
+		return VerifChildStub(k, i)
+	}
+	return k.Child__real(i)
+}
+
+// VerifOpaqueKey: an extended key carrying only a tag (for stubs).
+func VerifOpaqueKey(tag []byte, private bool) *ExtendedKey {
+	return &ExtendedKey{key: tag, chainCode: []byte{}, parentFP: []byte{0, 0, 0, 0}, version: []byte{0, 0, 0, 0}, isPrivate: private}
+}
+
+func (k *ExtendedKey) VerifTag() []byte { return k.key }
